@@ -215,13 +215,16 @@ TRANSPARENT = (
 )
 
 
+OKPAYLOAD = "?ok.0"       # path step left by `Try::branch(x) as Continue .0`: the payload of x's success variant
+
+
 class Origin:
     __slots__ = ("kind", "key", "path", "info")
 
     def __init__(self, kind, key, path=(), info=None):
         self.kind = kind  # arg | call | const | agg | rv | unknown
         self.key = key
-        self.path = tuple(path)
+        self.path = tuple(x for x in path if x != OKPAYLOAD)
         self.info = info
 
     def __repr__(self):
@@ -295,7 +298,7 @@ def trace_place(body, place, extra_transparent=(), _seen=None, _path=()):
 
 def _strip_wrappers(path):
     # Try::branch gives ControlFlow::Continue.0 of the Ok value; unwrap-like paths are dropped
-    return tuple(p for p in path if p not in ("Continue.0",))
+    return tuple(OKPAYLOAD if p == "Continue.0" else p for p in path)
 
 
 def trace_op(body, op, extra_transparent=(), _seen=None, path_after=(), strip_wrapper=False):
@@ -328,6 +331,13 @@ def _trace_rv(body, rv, path, bb, idx, extra, seen):
             head = path[0]
             names = rv.get("fields", [])
             variant = rv.get("variant")
+            if head == OKPAYLOAD:
+                # `Ok(v)?` / `Some(v)?` is v; a literal `Err(..)` / `None` never comes out of the `?`
+                if variant in ("Ok", "Some") and len(rv["ops"]) == 1:
+                    return trace_op(body, rv["ops"][0], extra, seen, path[1:])
+                if variant in ("Err", "None"):
+                    return []
+                return _trace_rv(body, rv, path[1:], bb, idx, extra, seen)
             for nm, op in zip(names, rv["ops"]):
                 if head == nm or head == "%s.%s" % (variant, nm):
                     return trace_op(body, op, extra, seen, path[1:])
@@ -335,6 +345,8 @@ def _trace_rv(body, rv, path, bb, idx, extra, seen):
                 # `(x as Some).0` read where this definition made x a `None`: not an origin of the payload on any path
                 return []
             return [Origin("agg", (bb, idx), path, rv)]
+        if path and path[0] == OKPAYLOAD:
+            return _trace_rv(body, rv, path[1:], bb, idx, extra, seen)
         if path and kind == "tuple":
             try:
                 i = int(path[0])
